@@ -547,3 +547,119 @@ def rule_char_code(ctx, rep, config="c-lib"):
                               "negative, which set_sgrammar takes for `no code given' -- the constant becomes a terminal with a free code >= 256 and the character "
                               "itself is not a token of the grammar", where=s_.where(), witness=[s_.where()])
     rep.floor("C11-charcode", "codes of character constants", n, 1)
+
+
+def _yacc_rules(text):
+    """productions of the grammar section of a yacc file: list of (lhs, [symbols], line); actions, comments and literals handled"""
+    parts = text.split("\n%%")
+    if len(parts) < 2:
+        raise AnalysisBroken("sgramm.y: no grammar section")
+    head_lines = parts[0].count("\n") + 1
+    body = parts[1]
+    toks = []
+    i, ln = 0, head_lines + 1
+    n = len(body)
+    while i < n:
+        c = body[i]
+        if c == "\n":
+            ln += 1
+            i += 1
+        elif c.isspace():
+            i += 1
+        elif body.startswith("/*", i):
+            j = body.index("*/", i + 2)
+            ln += body.count("\n", i, j)
+            i = j + 2
+        elif c == "{":
+            depth, j = 0, i
+            while j < n:
+                ch = body[j]
+                if ch == "'" and j + 2 < n and body[j + 2] == "'":
+                    j += 3
+                    continue
+                if ch == '"':
+                    j = body.index('"', j + 1) + 1
+                    continue
+                if ch == "{":
+                    depth += 1
+                elif ch == "}":
+                    depth -= 1
+                    if depth == 0:
+                        break
+                j += 1
+            ln += body.count("\n", i, j)
+            i = j + 1
+        elif c == "'":
+            j = body.index("'", i + 2 if body[i + 1] != "\\" else i + 3)
+            toks.append((body[i:j + 1], ln))
+            i = j + 1
+        elif c.isalpha() or c == "_":
+            j = i
+            while j < n and (body[j].isalnum() or body[j] in "_."):
+                j += 1
+            toks.append((body[i:j], ln))
+            i = j
+        elif c == "%":
+            j = i + 1
+            while j < n and (body[j].isalnum() or body[j] in "_-"):
+                j += 1
+            toks.append((body[i:j], ln))
+            i = j
+        else:
+            toks.append((c, ln))
+            i += 1
+    rules = []
+    k = 0
+    while k < len(toks):
+        if k + 1 < len(toks) and toks[k + 1][0] == ":" and (toks[k][0][0].isalpha() or toks[k][0][0] == "_"):
+            lhs = toks[k][0]
+            k += 2
+            cur, cl = [], toks[k][1] if k < len(toks) else 0
+            while k < len(toks) and toks[k][0] != ";":
+                if toks[k][0] == "|":
+                    rules.append((lhs, cur, cl))
+                    cur, cl = [], toks[k][1]
+                elif toks[k][0] == "%prec":
+                    k += 1
+                elif k + 1 < len(toks) and toks[k + 1][0] == ":" and (toks[k][0][0].isalpha() or toks[k][0][0] == "_"):
+                    break         # a rule without the closing semicolon
+                else:
+                    cur.append(toks[k][0])
+                k += 1
+            rules.append((lhs, cur, cl))
+            if k < len(toks) and toks[k][0] == ";":
+                k += 1
+        else:
+            k += 1
+    return rules
+
+
+def rule_list_recursion(ctx, rep, config="c-lib"):
+    rep.rule("C11-lists", "the lists of the description grammar (terminal declarations, rules, alternatives, symbols of an alternative, translation numbers) are written "
+                          "with LEFT recursion: the LALR stack stays a few entries deep however long the list is.  With recursion through the last symbol the stack "
+                          "grows by an entry per element: beyond YYMAXDEPTH a well-formed description is refused as a syntax error, and the stack, malloc'ed once it "
+                          "outgrows its initial array, is lost when yyerror leaves the parser by longjmp")
+    import os
+    from ..build import REPO
+    path = os.path.join(os.environ.get("VERIF_REPO", REPO), "src", "sgramm.y")
+    try:
+        text = open(path).read()
+    except OSError:
+        raise AnalysisBroken("sgramm.y not found")
+    rules = _yacc_rules(text)
+    if len(rules) < 20:
+        raise AnalysisBroken("C11-lists: %d productions read from sgramm.y (hand-confirmed: more than 20)" % len(rules))
+    rep.rule_files = getattr(rep, "rule_files", [])
+    n = 0
+    for (lhs, syms, ln) in rules:
+        if lhs not in syms:
+            continue
+        n += 1
+        key = "sgramm.y/%s-recursion#%d" % (lhs, n)
+        if syms[0] == lhs and lhs not in syms[1:]:
+            rep.ok("C11-lists", key, sample={"production": "%s : %s" % (lhs, " ".join(syms)), "line": ln})
+        else:
+            rep.violation("C11-lists", key, "the production `%s : %s' recurses through a symbol that is not its first: every element of the list stays on the parser "
+                          "stack until the list ends -- a description with more than YYMAXDEPTH elements is refused although it follows the documented syntax" % (
+                              lhs, " ".join(syms)), where="%s:%d" % (path, ln), witness=["%s:%d" % (path, ln)])
+    rep.floor("C11-lists", "recursive productions of the description grammar", n, 5)
